@@ -15,10 +15,15 @@ LEVELS = {'C10': 'exploration', 'C11': 'fault_enumeration'}
 
 def load_findings():
     path = os.path.join(VERIF, 'known_findings.json')
-    if not os.path.exists(path):
-        return []
     with open(path) as f:
-        return json.load(f).get('findings', [])
+        out = json.load(f).get('findings', [])
+    ddir = os.path.join(VERIF, 'known_findings.d')
+    if os.path.isdir(ddir):
+        for name in sorted(os.listdir(ddir)):
+            if name.endswith('.json'):
+                with open(os.path.join(ddir, name)) as f:
+                    out += json.load(f).get('findings', [])
+    return out
 
 
 class Ctx:
